@@ -101,6 +101,12 @@ fn read_everything(m: &Machine) -> u64 {
     acc ^= m.is_instruction_done() as u64;
     acc ^= m.bus().output_fe() as u64 ^ m.bus().output_ff() as u64;
     acc ^= m.word().bits() as u64;
+    // the remaining public read-only API
+    acc ^= (m.is_stackpointer_valid() as u64) << 5 ^ (m.is_program_counter_valid() as u64) << 6;
+    let rg = m.registers();
+    acc ^= (rg.carry_flag() as u64) << 7 ^ (rg.zero_flag() as u64) << 8 ^ (rg.negative_flag() as u64) << 9 ^ (rg.interrupt_enable_flag() as u64) << 10;
+    acc ^= (m.bus().is_timer_edge_int_enabled() as u64) << 11 ^ (m.bus().is_key_edge_int_enabled() as u64) << 12;
+    acc ^= (m.bus().board().daicr().interrupt_source() as u64) << 13;
     acc ^= (m.state() as u64) << 3;
     acc
 }
